@@ -280,10 +280,43 @@ def part_hull(ck, convex_hull):
 
 
 # =========================================================================== entry
+def rotation_convention(ck):
+    """ties tweakwcs.wcsutils.planar_rot_3d and the order used by RefCatalog._calc_cat_convex_hull to the Coq model
+    (Proofs/SkyRot.v: rot_z, rot_y, euler = rot_y . rot_z): same matrices, and the product applied to the mean
+    direction gives the +x axis; the source text of the method is checked to use that order."""
+    import inspect
+    import math
+    import numpy as np
+    from tweakwcs.wcsutils import planar_rot_3d
+    from tweakwcs.wcsimage import RefCatalog
+    rng = ck.rng
+    for _ in range(ck.n(40, 400)):
+        ra, dec = rng.uniform(0, 360), rng.uniform(-89.9, 89.9)
+        a, d = math.radians(ra), math.radians(dec)
+        c1, s1, c2, s2 = math.cos(a), math.sin(a), math.cos(d), math.sin(d)
+        rz, ry = planar_rot_3d(a, 2), planar_rot_3d(d, 1)
+        mz = np.array([[c1, s1, 0.0], [-s1, c1, 0.0], [0.0, 0.0, 1.0]])
+        my = np.array([[c2, 0.0, s2], [0.0, 1.0, 0.0], [-s2, 0.0, c2]])
+        ck.search_evaluations += 1
+        v = np.dot(np.dot(ry, rz), [c2 * c1, c2 * s1, s2])
+        if not (np.array_equal(rz, mz) and np.array_equal(ry, my) and np.allclose(v, [1.0, 0.0, 0.0], atol=1e-14)):
+            ck.violation({'kind': 'planar_rot_3d differs from the modelled rotation matrices', 'ra': ra, 'dec': dec,
+                          'planar_rot_3d(ra, 2)': rz.tolist(), 'planar_rot_3d(dec, 1)': ry.tolist(),
+                          'rotated mean direction': v.tolist()})
+            return
+    src = inspect.getsource(RefCatalog._calc_cat_convex_hull)
+    if 'multi_dot(rotm[::-1])' not in src.replace(' ', '').replace('np.linalg.', ''):
+        # the order of the two rotations is what fix dfbfda6 repaired; the high-declination / RA ~ 180 stream of
+        # pC16cat exposes a wrong order on the sky, this is only the textual tie of the model to the source
+        ck.notes.append('RefCatalog._calc_cat_convex_hull no longer contains `multi_dot(rotm[::-1])`: the Coq model of '
+                        'the rotation order (SkyRot.euler) is tied to the code only through the sky-level stream')
+
+
 def run(ck):
     implementation()
     from tweakwcs.wcsimage import convex_hull
     ck.props()
+    rotation_convention(ck)
     ck.rule = ('(i) point sets from families random / dyadic / duplicates / collinear runs (+ off-line points) / '
                'lattices (sheared, thinned) / 0..3 points / near-circle / clusters of near-coincident points around '
                'polygon vertices with min_separation below, at and above the cluster size; min_separation None, 0, '
